@@ -87,7 +87,7 @@ func (o *realOrigin) ServeHTTP(w http.ResponseWriter, r *http.Request) {
 		return
 	}
 	w.Header().Set("ETag", tag)
-	http.ServeContent(w, r, key, time.Time{}, bytes.NewReader(data)) // honours If-Match and Range
+	http.ServeContent(&dribbleWriter{ResponseWriter: w}, r, key, time.Time{}, bytes.NewReader(data)) // honours If-Match and Range; short reads, as over a real network
 }
 
 func (o *realOrigin) up() bool {
